@@ -19,7 +19,7 @@ func verifDownloader(first *playlist.Media) *clientStreamDownloader {
 	u, _ := url.Parse("http://host.example/live/dir/stream.m3u8?tok=1")
 	d := &clientStreamDownloader{
 		isLeading:                true,
-		httpClient:               &http.Client{},
+		httpClient:               &http.Client{Transport: verifRoundTripper{}},
 		onRequest:                func(*http.Request) {},
 		onDownloadStreamPlaylist: func(string) {},
 		onDownloadSegment:        func(string) {},
@@ -267,6 +267,21 @@ func VerifH_C11_lowlatency() {
 		p := &playlist.Media{MediaSequence: 5, TargetDuration: 2, ServerControl: sc,
 			Segments:    []*playlist.MediaSegment{{Duration: time.Second, URI: "s0.mp4"}},
 			PreloadHint: &playlist.MediaPreloadHint{URI: "part" + itoaSmall(k) + ".mp4"}}
+		if k == 0 {
+			// PROGRAM-DATE-TIME applies to the next segment only: any subset of the segments may carry it
+			t0 := time.Date(2022, 2, 2, 2, 2, 2, 0, time.UTC)
+			if verifBool("twosegments") {
+				p.Segments = append(p.Segments, &playlist.MediaSegment{Duration: time.Second, URI: "s1.mp4"})
+			}
+			for _, sg := range p.Segments {
+				if verifBool("hasdatetime") {
+					sg.DateTime = &t0
+				}
+			}
+			if verifBool("openpart") {
+				p.Parts = []*playlist.MediaPart{{Duration: 200 * time.Millisecond, URI: "op.mp4"}}
+			}
+		}
 		if withRange {
 			l := verifRangeU64("hintlen", 1, 99)
 			p.PreloadHint.ByteRangeStart = verifRangeU64("hintstart", 0, 99)
